@@ -247,6 +247,13 @@ Fixpoint fb_sorted (ch : list ttnode) : bool :=
 Fixpoint tt_sortedb (t : ttnode) : bool :=
   match t with TT _ _ ch => fb_sorted ch && forallb tt_sortedb ch end.
 
+(* everything the serializer writes as a uvarint fits a uint64 *)
+Fixpoint tt_fitsb (m d : N) (t : ttnode) : bool :=
+  match t with
+  | TT n v ch =>
+      (Nlen n <? 2 ^ 64) && (tt_scale_val m d v <? 2 ^ 64) && (Nlen ch <? 2 ^ 64) && forallb (tt_fitsb m d) ch
+  end.
+
 Fixpoint tt_eqb (a b : ttnode) {struct a} : bool :=
   match a, b with
   | TT an av ach, TT bn bv bch =>
